@@ -143,10 +143,19 @@ Definition obs_ok (k : case) (o : obs) : bool :=
      | StartError => true
      end.
 
+(** The acknowledgement markers are written by the WRITER goroutine; in background mode the loop goroutine's
+    system calls can fall between a request's last primary write and its marker.  Markers change neither the
+    image nor the committed set, so the traces are compared without them (their relative order must agree);
+    the row-level oracle on the real code uses the markers' recorded positions. *)
+Definition is_ack (e : event) : bool := match e with EAck _ => true | _ => false end.
+Definition strip_acks (tr : list event) : list event := filter (fun e => negb (is_ack e)) tr.
+Definition acks_of (tr : list event) : list event := filter is_ack tr.
+
 (** trace validation: the model generates exactly the recorded event sequence *)
 Definition trace_ok (k : case) : bool :=
   match run (clen_of (k_clen k)) 0%N (k_owner k) (k_tgid0 k) (k_sched k) with
-  | Ok tr => match first_diff tr (k_trace k) 0 with None => true | Some _ => false end
+  | Ok tr => match first_diff (strip_acks tr) (strip_acks (k_trace k)) 0 with None => true | Some _ => false end
+             && match first_diff (acks_of tr) (acks_of (k_trace k)) 0 with None => true | Some _ => false end
   | _ => false
   end.
 
@@ -172,7 +181,7 @@ Definition agrees (k : case) : bool :=
 (** diagnostics for the driver: where the trace first differs / which prefixes disagree *)
 Definition trace_diff (k : case) : option nat :=
   match run (clen_of (k_clen k)) 0%N (k_owner k) (k_tgid0 k) (k_sched k) with
-  | Ok tr => first_diff tr (k_trace k) 0
+  | Ok tr => first_diff (strip_acks tr) (strip_acks (k_trace k)) 0
   | _ => Some 0%nat
   end.
 Definition bad_prefixes (k : case) : list nat :=
